@@ -97,6 +97,9 @@ def persistable(rng):
         out.append(('CurrentSource', dict(I=0.25, name='Q', reverse=rev)))
         out.append(('ComplexVoltageSource', dict(V=3 + 4j, name='Q', reverse=rev)))
         out.append(('ComplexCurrentSource', dict(I=1 - 2j, name='Q', reverse=rev)))
+        # a sine-reference source whose translated phase is exactly 0, and an explicit zero phase
+        out.append(('ACVoltageSource', dict(V=2.0, w=50.0, phi=math.pi / 2, name='Q', reverse=rev, sin=True)))
+        out.append(('ACCurrentSource', dict(I=2.0, w=50.0, phi=0.0, name='Q', reverse=rev, deg=True)))
         for deg, sin in itertools.product((False, True), repeat=2):
             out.append(('ACVoltageSource', dict(V=2.0, w=50.0, phi=30.0 if deg else 0.5, name='Q', reverse=rev, deg=deg, sin=sin)))
             out.append(('ACCurrentSource', dict(I=2.0, w=50.0, phi=30.0 if deg else 0.5, name='Q', reverse=rev, deg=deg, sin=sin)))
@@ -146,14 +149,55 @@ def persistence(tier, rng, failures):
     return n
 
 
+def declarative(tier, failures):
+    """A declarative element list (with place_after and unnamed wires) gives the same circuit as the programmatic construction."""
+    from CircuitCalculator.SimpleSimulation.schematic import create_schematic
+    n = 0
+    for extra_wires_first in (0, 1, 2):
+        for reverse in (False, True):
+            n += 1
+            elements = [{'type': 'line', 'direction': 'right'} for _ in range(extra_wires_first)]
+            elements += [
+                {'type': 'voltage_source', 'name': 'V1', 'V': 12, 'direction': 'up', 'reverse': reverse},
+                {'type': 'resistor', 'name': 'R1', 'R': 4, 'direction': 'right'},
+                {'type': 'line', 'direction': 'right'},
+                {'type': 'resistor', 'name': 'R2', 'R': 6, 'direction': 'down'},
+                {'type': 'line', 'direction': 'left'},
+                {'type': 'line', 'direction': 'left'},
+                {'type': 'resistor', 'name': 'R3', 'R': 3, 'direction': 'down', 'place_after': 'R1'},
+                {'type': 'ground', 'name': '0', 'place_after': 'R3'},
+            ]
+            case = {'unnamed wires before the first symbol': extra_wires_first, 'reverse': reverse}
+            try:
+                s = create_schematic({'unit': 7, 'elements': elements})
+                p = elm.Schematic(unit=7)
+                for _ in range(extra_wires_first):
+                    p += elm.Line().right(7)
+                p += elm.VoltageSource(V=12, name='V1', reverse=reverse).up(7)
+                p += (r1 := elm.Resistor(R=4, name='R1').right(7))
+                p += elm.Line().right(7)
+                p += elm.Resistor(R=6, name='R2').down(7)
+                p += elm.Line().left(7)
+                p += elm.Line().left(7)
+                p += (r3 := elm.Resistor(R=3, name='R3').down(7).at(r1.end))
+                p += elm.Ground(name='0').at(r3.end)
+                got, want = fingerprint(circuit_translator(s)), fingerprint(circuit_translator(p))
+                if got != want:
+                    failures.append({'kind': 'declarative', 'case': case, 'what': 'declarative list and programmatic construction give different circuits',
+                                     'want': repr(want)[:400], 'got': repr(got)[:400]})
+            except Exception as ex:
+                failures.append({'kind': 'declarative', 'case': case, 'what': f'raises {type(ex).__name__}: {ex}'})
+    return n
+
+
 def main(tier, seed, out):
     rng = random.Random(seed)
     failures = []
     n1 = geometry(tier, failures)
-    n2 = persistence(tier, rng, failures)
+    n2 = persistence(tier, rng, failures) + declarative(tier, failures)
     json.dump({'evaluations': n1 + n2, 'distinct': n1 + n2, 'failures': failures[:100], 'n_failures': len(failures),
                'samples': [{'geometry cases': n1, 'persistence cases (x3 cycles)': n2}],
-               'bound': f'{n1} drawings of one loop (4 rotations x units x split x reversal x label order); {n2} persistable symbol variants x 3 save/load cycles'},
+               'bound': f'{n1} drawings of one loop (4 rotations x units x split x reversal x label order); {n2} persistable symbol variants x 3 save/load cycles and declarative lists'},
               open(out, 'w'), indent=1, default=str)
 
 
